@@ -32,7 +32,10 @@ func c20PeerInterval(hb time.Duration) time.Duration {
 func VerifHarness_C20_step() {
 	r := verifNewSession(ndBool("initiator"), verifPickBeginString())
 	r.withTimers()
-	if ndBool("one-second-heartbeat") {
+	if verifTier() == 1 {
+		// thorough: any whole number of seconds (the 1.2 factor is float arithmetic: the value is case-split)
+		r.s.HeartBtInt = time.Duration(ndInt("heartbeat-seconds", 1, 45)) * time.Second
+	} else if ndBool("one-second-heartbeat") {
 		r.s.HeartBtInt = time.Second
 	}
 	hb := r.s.HeartBtInt
